@@ -11,7 +11,8 @@
                                     lists the frames the scenario's log shows being read
      wopen.call / wopen.ret   p=w   DB.OpenWriter
      wcall  p=w q=seq               Writer.Write about to be called with frame (w, seq, WKeys[w])
-     wret   p=w q=seq               it returned (Sync writers: the frame has been pushed)
+     wret   p=w q=seq m=auth|unauth it returned (Sync writers: the frame has been pushed and m is
+                                    Write's `authorized` result: "unauth" iff a series was excluded)
      wclose.call / wclose.ret p=w   Writer.Close
      sopen.call p=s ks=K            Streamer.Flow about to be called (subscription K)
      sopen.ret  p=s                 Flow returned (delta.Connect was accepted)
@@ -71,7 +72,12 @@ TWOpenCall == Ev("wopen.call") /\ pc[E.p] = "idle" /\ Pc(E.p, "wopen") /\ Step /
 TWOpenRet  == Ev("wopen.ret") /\ pc[E.p] = "wopen" /\ wstate[E.p] = "open"
               /\ Pc(E.p, "idle") /\ Step /\ UNCHANGED <<vars, cbuf, will>>
 TWCall == Ev("wcall") /\ wnext[E.p] = E.q /\ WriteCall(E.p) /\ Step /\ UNCHANGED <<pc, cbuf, will>>
-TWRet  == Ev("wret") /\ (E.p \in SyncWriters => Len(written[E.p]) >= E.q)
+\* (Sync writers: the frame has been pushed, and Write's `authorized` result - false iff some
+\* series was excluded - agrees with what was pushed; pinned beyond the statement, see header)
+TWRet  == Ev("wret")
+          /\ (E.p \in SyncWriters =>
+                /\ Len(written[E.p]) >= E.q
+                /\ (E.m = "auth") = (written[E.p][E.q].ks = WKeys[E.p]))
           /\ Step /\ UNCHANGED <<vars, pc, cbuf, will>>
 TWCloseCall == Ev("wclose.call") /\ pc[E.p] = "idle" /\ Pc(E.p, "wclose") /\ Step /\ UNCHANGED <<vars, cbuf, will>>
 TWCloseRet  == Ev("wclose.ret") /\ pc[E.p] = "wclose" /\ wstate[E.p] = "closed"
